@@ -18,14 +18,18 @@ def run(ck):
         "for integers, tuples, arrays, Option, Vec, maps, sets and String) the set of token sequences of write_into over all "
         "acyclic paths equals the set of token sequences of read_from over all paths to an Ok return: fixed-width runs are compared "
         "by total byte width, variable-length size tokens, byte strings, nested values and repetitions must align one to one "
-        "(zero-length byte strings and empty repetitions are optional on both sides). A one-sided change of width or order — which "
-        "no test would notice for Proof, whose round trip is exercised by no test — is reported. (S2) every narrowing cast of a "
-        "length or width in a writer is covered by a limit that the type's constructor asserts (constant compared by value), and "
-        "TraceInfo's reader accepts exactly what its constructor accepts for the three limits duplicated between them. Value equality "
+        "(zero-length byte strings and empty repetitions are optional on both sides; the grammar of private helpers the stream is handed "
+        "to is spliced in). A one-sided change of width or order — which no test would notice for Proof, whose round trip is "
+        "exercised by no test — is reported. (S2, engine E4) for TraceInfo, whose three shape parameters travel as single bytes and whose "
+        "limits are duplicated between constructor and reader: every accepting path of the constructor and every Ok path of the reader "
+        "is a box (interval per parameter plus the sum constraints the path established); the two unions of boxes are compared on the "
+        "grid of critical values, which decides their equality independently of how either side spells or factors its checks; and the "
+        "writer, analysed on the join of everything the constructor can return, narrows no value that does not fit. Value equality "
         "after decoding and reader-implementation independence (C07, C13) are not decided here."
     )
     ck.rule("S1", "writer token grammar == reader token grammar (per type, over all paths)")
-    ck.rule("S2", "narrowing casts in writers are covered by constructor limits; constructor limits == reader limits")
+    ck.rule("S2", "TraceInfo: the set of (main width, aux width, aux rands) accepted by read_from equals the set accepted by the constructor; "
+                  "every value the constructor accepts fits the integer width the writer narrows it to")
     ser = {}
     de = {}
     for im in prog.impls:
@@ -51,194 +55,140 @@ def run(ck):
         ck.ob("S1", f"grammar:{t}", ok,
               f"{t}: write_into emits {sorted(show_seq(x) for x in pw)}; read_from consumes the same token sequences", loc=r.loc(),
               detail=None if ok else f"writer: {sorted(show_seq(x) for x in pw)}  reader: {sorted(show_seq(x) for x in pr)}")
-    cast_limits(ck, prog, ser)
-    traceinfo_limits(ck, prog)
+    accepted_sets(ck, prog)
     ck.control("u16 and u32 length prefixes are different tokens", ("fixed", 2, "") != ("fixed", 4, ""))
 
 
-def panic_conditions(fn):
-    """[(cond, holds)] — comparisons that must hold (holds=True) / must not hold for fn not to diverge into a panic"""
-    res = []
-    rets = {(b, T) for b, blk in enumerate(fn.blocks) if blk["t"]["k"] == "return"}
-    for b, blk in enumerate(fn.blocks):
-        t = blk["t"]
-        if t["k"] != "switch":
+# ---- S2: accepted sets (engine E4) -------------------------------------------------------------------
+
+def _boxes(accepts, tags_of):
+    """accepting paths as boxes: [(intervals per variable, [(i, j, lo, hi) sum constraints])]"""
+    out = []
+    for rv, facts in accepts:
+        vals = tags_of(rv)
+        if vals is None:
             continue
-        c = trace_cond(fn, t["d"])
-        if c.kind != "cmp":
-            continue
-        listed = [v for v, _ in t["targets"]]
-        edges = [(v != "0", tb) for v, tb in t["targets"]] + ([(True, t["otherwise"])] if listed == ["0"] else [])
-        for truth, tb in edges:
-            r = reach(fn, [(tb, S)])
-            if not (rets & r):
-                res.append((b, c, not truth))
-    return res
+        iv, tags = [], []
+        for v in vals:
+            t = v.get("s")
+            tags.append(t)
+            f = facts.get(t) if t is not None else None
+            lo, hi = (max(v["lo"], f[0]), min(v["hi"], f[1])) if f else (v["lo"], v["hi"])
+            iv.append((lo, hi))
+        sums = []
+        for k, f in facts.items():
+            if isinstance(k, tuple) and k[0] == "Add" and k[1] in tags and k[2] in tags:
+                sums.append((tags.index(k[1]), tags.index(k[2]), f[0], f[1]))
+        out.append((iv, sums))
+    return out
 
 
-def cast_limits(ck, prog, ser):
-    """For TraceInfo (the only type whose writer narrows fields that a public constructor bounds by named limits):
-    each `x as uN` in write_into is covered by a constructor assertion `x <= K` with K <= uN::MAX."""
-    adt = "winter_air::air::trace_info::TraceInfo"
-    w = prog.impl_method(adt, SER, "write_into")
-    ctor = prog.fn(adt + "::new_multi_segment")
-    ck.saw(w, ctor)
-    gw = flow(w)
-    gc = flow(ctor)
-    # constructor bounds: field -> max (from `param(.len()) <= CONST`)
-    bounds = {}
-    for b, c, holds in panic_conditions(ctor):
-        for op, l, r in ((c.op, c.lhs, c.rhs), (FLIP[c.op], c.rhs, c.lhs)):
-            k = r.get("const")
-            if k is None or "scalar" not in k:
-                continue
-            kv = int(k["scalar"])
-            lw = gc.walk(ops=[l], at=c.node)
-            names = {ctor.local_name(p) for p in gc.params_in(lw)} | {ctor.local_name(nd[1]) for nd in lw if nd[0] == "p"}
-            o = op if holds else {"<": ">=", "<=": ">", ">": "<=", ">=": "<", "==": "!=", "!=": "=="}[op]
-            if o == "<=":
-                ub = kv
-            elif o == "<":
-                ub = kv - 1
-            else:
-                continue
-            for nme in names:
-                if nme:
-                    bounds[nme] = min(bounds.get(nme, 10**30), ub)
-    n = 0
-    for b, i, s in w.assigns():
-        rv = s["rv"]
-        if rv["k"] == "cast" and rv["ck"] == "IntToInt" and rv["to"] in UMAX and rv["from"] in ("usize", "u64", "u32", "u16"):
-            sw = gw.walk(ops=[rv["a"]], at=(b, i))
-            flds = sorted(f for a, f in gw.fields_in(sw) if a == adt)
-            if not flds:
-                continue
-            if any(nm.endswith("ilog2") for nm in gw.callee_names_in(sw)):
-                continue  # log2 of a usize is < 64
-            n += 1
-            cover = None
-            # constructor parameters are named after the fields; the total-width limit covers both segment widths
-            for f in flds:
-                cands = [f, f.replace("_segment_width", "_segment_width")]
-                for cnd in cands:
-                    if cnd in bounds:
-                        cover = bounds[cnd] if cover is None else min(cover, bounds[cnd])
-            if cover is None and any("segment_width" in f for f in flds):
-                # full_width = main + aux <= MAX_TRACE_WIDTH bounds each summand
-                for nme, ub in bounds.items():
-                    if nme in ("full_width",) or nme is None:
-                        cover = ub
-                fw = [ub for (bb, c, holds) in panic_conditions(ctor) for ub in [_full_width_bound(ctor, gc, c, holds)] if ub is not None]
-                if fw:
-                    cover = min(fw)
-            ok = cover is not None and cover <= UMAX[rv["to"]]
-            ck.ob("S2", f"TraceInfo:cast:{'/'.join(flds)}:as-{rv['to']}", ok,
-                  f"TraceInfo::write_into narrows `{'/'.join(flds)}` to {rv['to']}; the constructor limits it to {cover} <= {UMAX[rv['to']]}",
-                  loc=w.loc(b, i))
-    ck.floor("narrowing casts in TraceInfo::write_into", n, 4)
+def _member(pt, boxes):
+    for iv, sums in boxes:
+        if all(lo <= x <= hi for x, (lo, hi) in zip(pt, iv)) and all(lo <= pt[i] + pt[j] <= hi for i, j, lo, hi in sums):
+            return True
+    return False
 
 
-def _full_width_bound(ctor, gc, c, holds):
-    for op, l, r in ((c.op, c.lhs, c.rhs), (FLIP[c.op], c.rhs, c.lhs)):
-        k = r.get("const")
-        if k is None or "scalar" not in k:
-            continue
-        lw = gc.walk(ops=[l], at=c.node)
-        names = {ctor.local_name(p) for p in gc.params_in(lw)}
-        if {"main_segment_width", "aux_segment_width"} <= names:
-            o = op if holds else {"<": ">=", "<=": ">", ">": "<=", ">=": "<", "==": "!=", "!=": "=="}[op]
-            if o == "<=":
-                return int(k["scalar"])
-            if o == "<":
-                return int(k["scalar"]) - 1
-    return None
+def _critical(boxes_list, nvar, lo=0, hi=255):
+    vals = [set([lo, lo + 1, hi - 1, hi]) for _ in range(nvar)]
+    ks = set()
+    for boxes in boxes_list:
+        for iv, sums in boxes:
+            for i, (a, b) in enumerate(iv):
+                vals[i] |= {a - 1, a, a + 1, b - 1, b, b + 1}
+            for i, j, a, b in sums:
+                ks |= {a, b}
+    for _ in range(2):
+        for k in ks:
+            for i in range(nvar):
+                for c in list(vals[i]):
+                    for o in range(nvar):
+                        if o != i:
+                            vals[o] |= {k - c - 1, k - c, k - c + 1}
+    return [sorted(x for x in v if lo <= x <= hi) for v in vals]
 
 
-def traceinfo_limits(ck, prog):
+def accepted_sets(ck, prog):
+    """The three shape parameters of a TraceInfo travel as single bytes. With E4 every accepting path of the constructor and every Ok path
+    of the reader is a box (interval per parameter plus the sum constraints the path established); the two unions of boxes are compared
+    on the grid of all critical values (endpoints, neighbours, and their reflections through the sum bounds), which decides equality of
+    such sets. The comparison does not depend on how either side spells or factors its checks."""
+    from ..ranges import Analyzer, mk, top, top_ty
     adt = "winter_air::air::trace_info::TraceInfo"
     ctor = prog.fn(adt + "::new_multi_segment")
     rd = prog.impl_method(adt, DES, "read_from")
-    gc = flow(ctor)
-    gr = flow(rd)
-    mg = MustGuards(prog)
-    rg = [g for g in mg.of(rd) if g.fn is rd and g.kind == "switch" and g.cond.kind == "cmp"]
-    # (1) total width: constructor requires main+aux <= K  <=> reader rejects iff main+aux > K
-    kc = None
-    for b, c, holds in panic_conditions(ctor):
-        v = _full_width_bound(ctor, gc, c, holds)
-        if v is not None:
-            kc = v
-    kr = None
-    for g in rg:
-        for op, l, r in ((g.cond.op, g.cond.lhs, g.cond.rhs), (FLIP[g.cond.op], g.cond.rhs, g.cond.lhs)):
-            k = r.get("const")
-            if k is None or "scalar" not in k or not (k.get("def") or "").endswith("MAX_TRACE_WIDTH"):
-                continue
-            if op == ">":
-                kr = int(k["scalar"])
-            elif op == ">=":
-                kr = int(k["scalar"]) - 1
-    ck.ob("S2", "TraceInfo:limit:full-width", kc is not None and kc == kr,
-          f"TraceInfo: the constructor accepts a total width up to {kc}; read_from accepts up to {kr}", loc=rd.loc())
-    # (2) random elements: the reader rejects exactly the counts the constructor refuses
-    from ..cfg import guards as local_guards
-    from ..guards import accept_nodes
+    wr = prog.impl_method(adt, SER, "write_into")
+    ck.saw(ctor, rd, wr)
+    names = prog.adt_fields(adt)[:3]
+    an = Analyzer(prog, max_depth=6, opaque=lambda fn: fn.crate != "winter_air")
+    an.split_shifts = True
+    cargs = [mk(0, 255, False), mk(0, 255, False), mk(0, 255, False)] + [top_ty(t, False) for t in ctor.get("inputs")[3:]]
+    sc = an.analyze(ctor, cargs)
+    cb = _boxes(sc.accepts, lambda rv: [rv["f"][i] for i in range(3)] if rv["k"] == "agg" and all(rv["f"].get(i, {}).get("k") == "int" for i in range(3)) else None)
+    an2 = Analyzer(prog, max_depth=8, opaque=lambda fn: fn.crate not in ("winter_air", "winter_utils"))
+    an2.split_shifts = True   # case splits on stored comparisons
+    sr = an2.analyze(rd, [top(True)], (), {"R": "winter_utils::serde::byte_reader::SliceReader"})
 
-    def named_root(fn, g, op, at):
-        l = op_local(op, pure=True)
-        for _ in range(8):
-            if l is None:
-                return None
-            if fn.local_name(l):
-                return fn.local_name(l)
-            ds = [d for d in g.reaching(l, at[0], g._pos(*at)) if d.kind == "assign" and d.stmt["k"] == "assign" and d.stmt["rv"]["k"] in ("use", "cast")]
-            if len(ds) != 1:
-                return None
-            at = (ds[0].b, ds[0].i)
-            l = op_local(ds[0].stmt["rv"]["a"], pure=True)
-        return None
-
-    def controlling(fn, g, block):
-        """(variable, op, const) of a comparison one edge of which is the only way to reach `block`"""
-        out = set()
-        for b, blk in enumerate(fn.blocks):
-            t = blk["t"]
-            if t["k"] != "switch" or b == block:
-                continue
-            c = trace_cond(fn, t["d"])
-            if c.kind != "cmp":
-                continue
-            listed = [v for v, _ in t["targets"]]
-            edges = [(v != "0", tb) for v, tb in t["targets"]] + ([(True, t["otherwise"])] if listed == ["0"] else [])
-            for truth, tb in edges:
-                others = [x for tr, x in edges if x != tb]
-                r = reach(fn, [(0, S)], avoid=frozenset([(tb, S)]))
-                if (block, S) not in r and (block, T) not in r:
-                    nm = named_root(fn, g, c.lhs, c.node)
-                    k = (c.rhs.get("const") or {}).get("scalar")
-                    op = c.op if truth else {"<": ">=", "<=": ">", ">": "<=", ">=": "<", "==": "!=", "!=": "=="}[c.op]
-                    out.add((nm, op, k))
-        return out
-    want = set()
-    for b, c, holds in panic_conditions(ctor):
-        nm = named_root(ctor, gc, c.lhs, c.node)
-        if nm != "num_aux_segment_rands":
+    def ok_fields(rv):
+        if rv["k"] != "enum" or 0 not in rv["v"]:
+            return None
+        ti = rv["v"][0]["f"].get(0)
+        if not ti or ti["k"] != "agg" or not all(ti["f"].get(i, {}).get("k") == "int" for i in range(3)):
+            return None
+        return [ti["f"][i] for i in range(3)]
+    rb = _boxes(sr.accepts, ok_fields)
+    if not cb or not rb:
+        raise AnchorError(f"TraceInfo: accepting paths not found (constructor {len(cb)}, reader {len(rb)})")
+    ck.stats["TraceInfo accepting paths (ctor/reader)"] = (len(cb), len(rb))
+    grid = _critical([cb, rb], 3)
+    only_c, only_r, n = [], [], 0
+    for m in grid[0]:
+        for a in grid[1]:
+            for r in grid[2]:
+                n += 1
+                ic, ir = _member((m, a, r), cb), _member((m, a, r), rb)
+                if ic and not ir and len(only_c) < 3:
+                    only_c.append((m, a, r))
+                if ir and not ic and len(only_r) < 3:
+                    only_r.append((m, a, r))
+    ck.stats["TraceInfo critical points compared"] = n
+    ck.ob("S2", "TraceInfo:reader-accepts-all-constructible", not only_c,
+          f"every ({', '.join(names)}) the constructor accepts is accepted by read_from ({n} critical combinations compared)", loc=rd.loc(),
+          detail=None if not only_c else f"constructible but rejected when read back, e.g. {only_c}")
+    ck.ob("S2", "TraceInfo:reader-accepts-only-constructible", not only_r,
+          f"read_from accepts no ({', '.join(names)}) that the constructor refuses (it would panic in the constructor it ends with)", loc=rd.loc(),
+          detail=None if not only_r else f"accepted by the reader but refused by the constructor, e.g. {only_r}")
+    # writer: analysed on the join of everything the constructor can return (all parameters unconstrained this time): no narrowing
+    # cast in write_into may receive a value outside its target type
+    from ..ranges import with_path_facts, join, report_sites
+    an3 = Analyzer(prog, max_depth=6, opaque=lambda fn: fn.crate != "winter_air")
+    s3 = an3.analyze(ctor, [top_ty(t, False) for t in ctor.get("inputs")])
+    selfv = None
+    for rv, facts in s3.accepts:
+        facts = dict(facts)
+        # x + y <= K with unsigned x, y bounds each of them by K (minus the other's lower bound)
+        utags = {v.get("s") for v in rv["f"].values() if v["k"] == "int" and v["lo"] >= 0 and v.get("s") is not None} if rv["k"] == "agg" else set()
+        for k, f in list(facts.items()):
+            if isinstance(k, tuple) and k[0] == "Add" and k[1] in utags and k[2] in utags:
+                for me, other in ((k[1], k[2]), (k[2], k[1])):
+                    olo = max(0, facts[other][0]) if other in facts else 0
+                    cur = facts.get(me, (0, 2**64 - 1, False))
+                    facts[me] = (cur[0], min(cur[1], f[1] - olo), cur[2] if len(cur) > 2 else False)
+        selfv = join(selfv, with_path_facts(rv, facts))
+    if selfv is None or selfv["k"] != "agg":
+        raise AnchorError("TraceInfo::new_multi_segment: no returning path found")
+    an4 = Analyzer(prog, max_depth=6, opaque=lambda fn: fn.crate not in ("winter_air", "winter_utils"))
+    an4.check_truncation = True
+    s4 = an4.analyze(wr, [selfv, top(False)], (), {"W": "alloc::vec::Vec<u8>"})
+    n_tr = 0
+    for k, (status, loc) in sorted(an4.site_log.items()):
+        if "/Truncation:" not in k or not k.startswith("<" + adt):
             continue
-        k = (c.rhs.get("const") or {}).get("scalar")
-        refuse = c.op if not holds else {"<": ">=", "<=": ">", ">": "<=", ">=": "<", "==": "!=", "!=": "=="}[c.op]
-        ctl = frozenset(x for x in controlling(ctor, gc, b) if x[0] == "aux_segment_width")
-        want.add((refuse, k, ctl))
-    got = set()
-    for g in local_guards(rd, okset=set(accept_nodes(rd))):
-        if g.cond.kind != "cmp":
-            continue
-        nm = named_root(rd, gr, g.cond.lhs, g.cond.node)
-        if nm != "num_aux_segment_rands":
-            continue
-        k = (g.cond.rhs.get("const") or {}).get("scalar")
-        ctl = frozenset(x for x in controlling(rd, gr, g.block) if x[0] == "aux_segment_width")
-        got.add((g.cond.op, k, ctl))
-    ck.ob("S2", "TraceInfo:limit:aux-rands", want == got and bool(want),
-          "TraceInfo::read_from rejects exactly the random-element counts that the constructor refuses (same comparison, same constant, "
-          "under the same condition on the auxiliary width)", loc=rd.loc(),
-          detail=f"constructor refuses {sorted((a, b, sorted(c)) for a, b, c in want)}; reader rejects {sorted((a, b, sorted(c)) for a, b, c in got)}")
+        n_tr += 1
+        ck.ob("S2", "TraceInfo:writer-cast:" + k.split("/Truncation:")[1].replace(" ", "_"), status in ("safe",),
+              f"TraceInfo::write_into: `{k.split('/Truncation:')[1]}` receives only values the target type can hold, for every value the "
+              "constructor can return", loc=loc)
+    ck.floor("narrowing casts in TraceInfo::write_into", n_tr, 4)
+    ck.control("the comparison distinguishes `sum > 255` from `sum >= 255`",
+               _member((255, 0, 0), [([(1, 255), (0, 255), (0, 255)], [(0, 1, 1, 255)])]) and not _member((255, 0, 0), [([(1, 255), (0, 255), (0, 255)], [(0, 1, 1, 254)])]))
